@@ -1,5 +1,6 @@
 (* C08 line protocol.
      write <datum tokens…>   -> hex of the model writer's text
+     swrite <datum tokens…>  -> hex of the text of the model of (scheme write) (lib/srfi/38.scm wr-one on a tree)
      read <hex text>         -> datum tokens | EOF | ERR <kind>      (+ " TRAIL" when input is left)
      decode <hex bytes>      -> sexp_decode_utf8_char on the C string (decimal)
    datum tokens (prefix notation): I<hex z> D<hex bits> C<hex> S<hexbytes> Y<hexbytes> T F N
@@ -240,10 +241,29 @@ let handle = function
     let rec canon d = (match d with
       | Flo b -> Flo (flo_canon b) | Pair (a, t) -> Pair (canon a, canon t) | Vec l -> Vec (List.map canon l) | x -> x) in
     let fuel = nat_of_int (int_of_nat (height d) + 2) in
-    (match read_raw dec2flo fuel (write fmt_g scan_g d @ [z_of_int 41]) with
+    (* round 4: the same instance for the library writer's text (scheme_write_roundtrip), and writers_agree *)
+    let one label text = (match read_raw dec2flo fuel (text @ [z_of_int 41]) with
      | Ok (TDatum d', rest) when d' = canon d && rest = [z_of_int 41] -> "OK"
-     | Ok (TDatum d', _) -> "FAIL " ^ unparse d'
-     | _ -> "FAIL ERR")
+     | Ok (TDatum d', _) -> "FAIL " ^ label ^ " " ^ unparse d'
+     | _ -> "FAIL " ^ label ^ " ERR") in
+    let tw = write fmt_g scan_g d and ts = swrite fmt_g scan_g d in
+    (match one "write" tw with
+     | "OK" -> (match one "swrite" ts with
+                | "OK" -> if same_char_text d && ts <> tw then "FAIL writers_agree" else "OK"
+                | m -> m)
+     | m -> m)
+  | ["sreadq"; h] ->
+    (* C08/SRead.v: the library reader's string / |symbol| arm on a text that starts with a quote character *)
+    (match sread_atom (bytes_of_hex h) with
+     | Ok (TDatum d, rest) ->
+       (* anything but white space / comments left after the datum? (as the harness: a second read must hit the end of input) *)
+       let trail = (match read_top dec2flo (nat_of_int (List.length rest + 2)) rest with Ok (TEof, _) -> "" | _ -> " TRAIL") in
+       unparse d ^ trail
+     | Ok (_, _) -> "ERR ReadErr"
+     | Err ReadErr -> "ERR ReadErr"
+     | Err Unmodelled -> "ERR Unmodelled"
+     | Err OutOfFuel -> "ERR OutOfFuel")
+  | "swrite" :: toks -> let (d, _) = parse toks in hex_of_bytes (swrite fmt_g scan_g d)
   | "nwrite" :: toks -> hex_of_bytes (write_xnum (xnum_of_toks toks))
   | ["nread"; h] ->
     let s = bytes_of_hex h in
